@@ -28,6 +28,7 @@ type thread struct {
 	id   int
 	done bool
 	h    handle
+	wg   *sync.WaitGroup // endWG of the execution that spawned it
 	// blocking model: at most one of these is set while the thread waits
 	waitWG *WaitGroup
 	waitMu *Mutex
@@ -67,7 +68,7 @@ var (
 	threads []*thread
 	alive   int // threads that have not finished
 	cur     *thread
-	endWG   sync.WaitGroup
+	endWG   *sync.WaitGroup // of the current execution: goroutines leaked by a deadlocked one keep theirs
 
 	// Deadlock is set when no goroutine is enabled while some are unfinished.
 	Deadlock bool
@@ -82,7 +83,7 @@ var (
 
 //go:norace
 func newThread() *thread {
-	t := &thread{id: len(threads)}
+	t := &thread{id: len(threads), wg: endWG}
 	t.h = newHandle()
 	threads = append(threads, t)
 	alive++
@@ -97,6 +98,7 @@ func Begin() {
 		t.h.close()
 	}
 	threads, alive = nil, 0
+	endWG = new(sync.WaitGroup)
 	Rec = nil
 	chanReset()
 	Deadlock, ChildPanics, Points, Spawned, Unfinished = false, nil, 0, 0, 0
@@ -351,10 +353,11 @@ func Release() {
 
 //go:norace
 func (t *thread) run(f func()) {
+	wg := t.wg
 	t.h.park()
 	t.afterPark()
 	t.call(f)
-	endWG.Done()
+	wg.Done()
 	t.done = true
 	alive--
 	schedule(t)
